@@ -61,7 +61,7 @@ CHECKS = {
   "C03": ("E2-explicit-state", "model_checking",
    "explicit-state BFS over request histories on clones of the real Server, reference model in lock-step",
    "All request histories up to depth 6 (quick) / 8 (thorough) over five sub-alphabets (valid and invalid writes of every kind, token provenance classes, boundary sizes, timestamps around +-45 s, clock steps around the rotation period, request filter) are executed against the real Server through the real codec; every reply and the stored state are compared with a reference model after every transition.",
-   "States hold real Server clones; capacities 8/4/4 instead of defaults; the layers above Server::handle_request are covered by the E1 checks.", "DESIGN.md section 6, C03"),
+   "States hold real Server clones; capacities 8/4/4 instead of defaults; a selection of the explored histories is replayed byte-for-byte through a full threaded node (E1) to bind the Server-level search to the running system.", "DESIGN.md section 6, C03"),
  "C04": ("E2-explicit-state", "model_checking",
    "explicit-state BFS to a fixpoint over put/get histories on clones of the real Server, BEP44 reference state machine in lock-step",
    "The reachable state space of a Server under the put/get alphabet (seq 1..4, cas variants, two writers, keys, salted slot, capacities 1/2/8) is explored until no new state appears; every reply is compared with the BEP44 reference and the stored seq is checked for monotonicity on every transition.",
